@@ -255,6 +255,57 @@ pub async fn run(out: &mut Out) {
             }
         }
     }
+    // ---- A: every accepted `auth:` section (socks listener) serves credential checks without panicking: listed and
+    // unlisted users, SOCKS4-style empty passwords, odd command vectors
+    {
+        use futures::FutureExt;
+        let sections = [
+            "required: true",
+            "required: true\ncmd: []",
+            "required: true\ncmd: [\"\"]",
+            "required: true\ncmd: [\"/nonexistent\"]",
+            "required: true\ncmd: [\"/bin/true\"]",
+            "required: true\ncmd: [\"/bin/false\", \"#USER#\"]\ncache:\n  timeout: 0",
+            "required: true\nusers: []\ncmd: []\ncache:\n  timeout: 1",
+            "required: true\nusers:\n  - username: u\n    password: p\ncmd: []",
+            "required: false\ncmd: []",
+            "required: true\nusers:\n  - username: \"\"\n    password: \"\"",
+        ];
+        for (i, sec) in sections.iter().enumerate() {
+            let parsed = no_panic(|| serde_yaml::from_str::<crate::common::auth::AuthData>(sec));
+            let mut imp = String::new();
+            match parsed {
+                None => {
+                    imp = "load-panic".into();
+                    out.oracle_fail("crash-at-load", &format!("auth section {:?}: deserialising panicked", sec));
+                }
+                Some(Err(_)) => imp = "rejected".into(),
+                Some(Ok(mut auth)) => {
+                    let init = std::panic::AssertUnwindSafe(auth.init()).catch_unwind().await;
+                    match init {
+                        Err(_) => {
+                            imp = "init-panic".into();
+                            out.oracle_fail("crash-at-load", &format!("auth section {:?}: init panicked", sec));
+                        }
+                        Ok(Err(_)) => imp = "rejected".into(),
+                        Ok(Ok(())) => {
+                            imp = "accepted".into();
+                            for cred in [None, Some(("u".to_string(), "p".to_string())), Some(("x".to_string(), "".to_string())), Some(("".to_string(), "".to_string()))] {
+                                let r = std::panic::AssertUnwindSafe(auth.check(&cred)).catch_unwind().await;
+                                if r.is_err() {
+                                    imp = "accepted-then-panic".into();
+                                    out.oracle_fail("accepted-config-crashes", &format!("auth section {:?} is accepted; checking credentials {:?} panics (the shipped binary aborts)", sec, cred));
+                                }
+                            }
+                        }
+                    }
+                }
+            }
+            let imp = if imp == "accepted" || imp == "rejected" { "no-panic".to_string() } else { imp };
+            out.case(&format!("A {}", i), &imp);
+            out.stat("auth_sections");
+        }
+    }
     out.case("M mutated-documents", "no-panic-or-see-oracle");
     out.stat_add("mutated_documents", nm);
     // ---- B: the real binary
